@@ -100,11 +100,6 @@ def safeFloats : List Obj → Option (List Rat)
     | some q, some qs => some (q :: qs)
     | _, _ => none
 
-def safeMatrix (a b c d e f : Obj) : Option Matrix :=
-  match safeFloat a, safeFloat b, safeFloat c, safeFloat d, safeFloat e, safeFloat f with
-  | some a, some b, some c, some d, some e, some f => some (a, b, c, d, e, f)
-  | _, _, _, _, _, _ => none
-
 /-! ### fonts, `LTChar.__init__`, `render_char` -/
 
 def fontOf (env : Env) : FontSel → Option Font
@@ -220,61 +215,62 @@ def call (env : Env) (runForm : Form → Matrix → Res → List Glyph × Bool) 
       | [] => (st, [])
       | (scs, ncs) :: crest => ({ st with scs := scs, ncs := ncs, csstack := crest }, [])
   | .cm, [a, b, c, d, e, f] =>
-    match safeMatrix a b c d e f with
-    | none => (st, [])
-    | some m => let ctm := mult_matrix m st.ctm; ({ st with ctm := ctm, dctm := ctm }, [])
+    match safeFloats [a, b, c, d, e, f] with
+    | some [a, b, c, d, e, f] =>
+      let ctm := mult_matrix (a, b, c, d, e, f) st.ctm; ({ st with ctm := ctm, dctm := ctm }, [])
+    | _ => (st, [])
   | .BT, [] => ({ st with ts := { st.ts with matrix := MATRIX_IDENTITY, linematrix := (0, 0) } }, [])
   | .ET, [] => (st, [])
   | .Tc, [x] =>
-    match safeFloat x with
-    | none => (st, [])
-    | some v => ({ st with ts := { st.ts with charspace := v } }, [])
+    match safeFloats [x] with
+    | some [v] => ({ st with ts := { st.ts with charspace := v } }, [])
+    | _ => (st, [])
   | .Tw, [x] =>
-    match safeFloat x with
-    | none => (st, [])
-    | some v => ({ st with ts := { st.ts with wordspace := v } }, [])
+    match safeFloats [x] with
+    | some [v] => ({ st with ts := { st.ts with wordspace := v } }, [])
+    | _ => (st, [])
   | .Tz, [x] =>
-    match safeFloat x with
-    | none => (st, [])
-    | some v => ({ st with ts := { st.ts with scaling := v } }, [])
+    match safeFloats [x] with
+    | some [v] => ({ st with ts := { st.ts with scaling := v } }, [])
+    | _ => (st, [])
   | .TL, [x] =>
-    match safeFloat x with
-    | none => (st, [])
-    | some v => ({ st with ts := { st.ts with leading := tl_leading v } }, [])
+    match safeFloats [x] with
+    | some [v] => ({ st with ts := { st.ts with leading := tl_leading v } }, [])
+    | _ => (st, [])
   | .Ts, [x] =>
-    match safeFloat x with
-    | none => (st, [])
-    | some v => ({ st with ts := { st.ts with rise := v } }, [])
+    match safeFloats [x] with
+    | some [v] => ({ st with ts := { st.ts with rise := v } }, [])
+    | _ => (st, [])
   | .Tr, [x] =>
     match safeInt x with
     | none => (st, [])
     | some v => ({ st with ts := { st.ts with render := v } }, [])
   | .Tf, [fontid, size] =>
-    match safeFloat size, fontid with
-    | some sz, .name n =>
+    match safeFloats [size], fontid with
+    | some [sz], .name n =>
       let font := match lookup n st.res.fonts with
         | some i => FontSel.idx i
         | none => FontSel.fallback
       ({ st with ts := { st.ts with font := font, fontsize := sz } }, [])
     | _, _ => (st, [])
   | .Td, [tx, ty] =>
-    match safeFloat tx, safeFloat ty with
-    | some tx, some ty =>
+    match safeFloats [tx, ty] with
+    | some [tx, ty] =>
       let (a, b, c, d, e, f) := st.ts.matrix
       ({ st with ts := { st.ts with matrix := (a, b, c, d, td_e_new tx a ty c e, td_f_new tx b ty d f),
                                     linematrix := (0, 0) } }, [])
-    | _, _ => (st, [])
+    | _ => (st, [])
   | .TD, [tx, ty] =>
-    match safeFloat tx, safeFloat ty with
-    | some tx, some ty =>
+    match safeFloats [tx, ty] with
+    | some [tx, ty] =>
       let (a, b, c, d, e, f) := st.ts.matrix
       ({ st with ts := { st.ts with matrix := (a, b, c, d, tD_e_new tx a ty c e, tD_f_new tx b ty d f),
                                     leading := tD_leading ty, linematrix := (0, 0) } }, [])
-    | _, _ => (st, [])
+    | _ => (st, [])
   | .Tm, [a, b, c, d, e, f] =>
-    match safeMatrix a b c d e f with
-    | none => (st, [])
-    | some m => ({ st with ts := { st.ts with matrix := m, linematrix := (0, 0) } }, [])
+    match safeFloats [a, b, c, d, e, f] with
+    | some [a, b, c, d, e, f] => ({ st with ts := { st.ts with matrix := (a, b, c, d, e, f), linematrix := (0, 0) } }, [])
+    | _ => (st, [])
   | .Tstar, [] => (doTstar st, [])
   | .TJ, [seq] =>
     match seq with
@@ -289,19 +285,19 @@ def call (env : Env) (runForm : Form → Matrix → Res → List Glyph × Bool) 
     | .str codes => doShow env (doTstar st) [.str codes]
     | _ => (st, [])
   | .dquote, [aw, ac, s] =>
-    match safeFloat aw, safeFloat ac, s with
-    | some aw, some ac, .str codes =>
+    match safeFloats [aw, ac], s with
+    | some [aw, ac], .str codes =>
       let st := { st with ts := { st.ts with wordspace := aw, charspace := ac } }
       doShow env (doTstar st) [.str codes]
-    | _, _, _ => (st, [])
+    | _, _ => (st, [])
   | .g, [x] =>
-    match safeFloat x with
+    match safeFloats [x] with
+    | some c => ({ st with ncolor := some c, ncs := (csLookup "DeviceGray").getD st.ncs }, [])
     | none => (st, [])
-    | some v => ({ st with ncolor := some [v], ncs := (csLookup "DeviceGray").getD st.ncs }, [])
   | .G, [x] =>
-    match safeFloat x with
+    match safeFloats [x] with
+    | some c => ({ st with scolor := some c, scs := (csLookup "DeviceGray").getD st.scs }, [])
     | none => (st, [])
-    | some v => ({ st with scolor := some [v], scs := (csLookup "DeviceGray").getD st.scs }, [])
   | .rg, [r, g, b] =>
     match safeFloats [r, g, b] with
     | none => (st, [])
